@@ -29,6 +29,10 @@ OBLIGATIONS = [
     'C09.clockDivider_period', 'C09.syncMem_read_before_write', 'C09.autoReset_pulse',
     # specimen: flattened netlist under Net.Sim (generated leaves) = functional model
     'C09.edgeDetector_net',
+    # netlist level (Props/C09Net.lean): constructor's netlist under Net.Sim = Lib model, for all histories
+    'C09N.cycle', 'C09N.init_state', 'C09N.netTrace_sim', 'C09N.treg_net', 'C09N.counter_net', 'C09N.stepUpCounter_net',
+    'C09N.delayLine_net', 'C09N.edgeDetector_netD', 'C09N.edgeDetector_netD_pre',
+    'FlatM.propagate_combfix', 'FlatM.edge_sim', 'C04.propagate_fixpoint', 'C05.leaf_sees_pre_edge',
     # dual-port memory: generated clock (Gen/C09.lean via harness/targets.d/C09.json)
     'C09.dualPort_read_before_write',
     # leaf bridges the block models rest on
@@ -724,12 +728,122 @@ def explore(res, cases, kind, p, max_states):
         res.hist('reach_truncated', kind)
 
 
+# ------------------------------------------------------------------------------------------------ netlist import
+# canonical wire numbering of the netlist builders in lean/Py4hwV/Lib/SeqNet.lean, by wire NAME (path below the block)
+NETMAP = {
+    'TReg': {'t': 1, 'q': 2, 'e': 3, 'r': 4, 'nq': 5, 'd': 6},
+    'Counter': {'q': 1, 'reset': 2, 'inc': 3, 'one': 4, 'zero': 5, 'add': 6, 'd': 7, 'd1': 8, 'e_add': 9, 'add/ci': 10},
+    'Edge': {'a': 1, 'r': 2, 'z1': 3, 'na': 4, 'nz1': 5, 'r/Mid': 6, 'r/XOut': 7, 'r/YOut': 8, 'r/NandMid/Mid': 9,
+             'r/NandX/Mid': 10, 'r/NandY/Mid': 11, 'r/NandR/Mid': 12},
+    'Delay': dict([('a', 1), ('r', 2), ('en', 3), ('reset', 4)] + [(f'r{j}', 5 + j) for j in range(64)]),
+    'StepUp': {'q': 1, 'reset': 2, 'inc': 3, 'one': 4, 'zero': 5, 'add': 6, 'd': 7, 'd1': 8, 'e_add': 9, 'add/ci': 10, 'step': 11},
+}
+
+
+def net_params(kind, p):
+    if kind == 'TReg':
+        return [int(p['hasE']), int(p['hasR'])]
+    if kind == 'Counter':
+        return [p['w'], int(p['hasReset']), int(p['hasInc'])]
+    if kind == 'StepUp':
+        return [p['w'], p.get('sw', p['w']), int(p['hasReset']), int(p.get('hasInc', 1))]
+    if kind == 'Edge':
+        return [p['dir']]
+    if kind == 'Delay':
+        return [p['w'], p['delay'], int(p['hasEn']), int(p['hasReset'])]
+    raise KeyError(kind)
+
+
+def net_configs(tier):
+    C = []
+    for e in (0, 1):
+        for r in (0, 1):
+            C.append(('TReg', dict(hasE=e, hasR=r)))
+            for w in ([1, 5] if tier == 'quick' else [1, 2, 5, 8, 33]):
+                C.append(('Counter', dict(w=w, hasReset=e, hasInc=r)))
+                C.append(('StepUp', dict(w=w, hasReset=e, hasInc=r, sw=max(1, w - 1 + 2 * r))))
+    C += [('Edge', dict(dir=k)) for k in (0, 1, 2)]
+    for e in (0, 1):
+        for r in (0, 1):
+            for dl in ([0, 1, 3] if tier == 'quick' else [0, 1, 2, 3, 7, 20]):
+                C.append(('Delay', dict(w=4 + dl, delay=dl, hasEn=e, hasReset=r)))
+    return C
+
+
+def wire_name(w):
+    import re
+    path = w.getFullPath()
+    if '[dut]' in path:
+        return '/'.join(re.findall(r'\[([^\]]*)\]', path.split('[dut]', 1)[1]))
+    return w.name
+
+
+def render_live(kind, blk):
+    """the LIVE constructor's netlist in the format of C09N.KNet.render, wires renamed by name"""
+    d = D.Dump(blk.sys, blk.sim)
+    m = NETMAP[kind]
+    can = {0: 0}
+    for i, w in enumerate(d.wires):
+        n = wire_name(w)
+        if n in m:
+            can[i + 1] = m[n]
+    used = set()
+
+    def W(txt):
+        out = []
+        for x in [t for t in txt.split(',') if t.strip() != '']:
+            x = int(x)
+            if x not in can:
+                raise KeyError(f'wire {d.wires[x - 1].getFullPath()} has no canonical name')
+            out.append(str(can[x]))
+            used.add(x)
+        return ','.join(out)
+    kinds, regs, comb_ix = [], [], {}
+    lid = -1
+    for ln in d.lines:
+        if not ln.startswith('leaf '):
+            continue
+        lid += 1
+        f = [x.strip() for x in ln[5:].split('|')]
+        if f[0] == 'Reg':
+            regs.append(f'Reg {f[1]} : {W(f[3])} > {W(f[5])}')
+        else:
+            comb_ix[lid] = len(kinds)
+            kinds.append(f'{f[0]} {f[1]} : {W(f[3])} > {W(f[5])}')
+    order = [comb_ix[int(x)] for x in d.schedule_lines()[0].split()[1].split(',')] if len(d.schedule_lines()[0].split()) > 1 else []
+    ws = sorted((can[x], d.wires[x - 1].getWidth()) for x in used if x != 0)
+    return ' ; '.join(kinds) + ' | ' + ' ; '.join(regs) + ' | ' + ','.join(str(x) for x in order) + ' | ' + \
+        ','.join(f'{a}:{b}' for a, b in ws)
+
+
+def netlist_import(res, tier):
+    """the netlists the theorems of Props/C09Net.lean are about ARE the netlists the live constructors build"""
+    cfgs, live = [], []
+    for kind, p in net_configs(tier):
+        try:
+            blk = Block(kind, p)
+            live.append(render_live(kind, blk))
+            cfgs.append((kind, p))
+        except Exception as e:
+            res.disagree('netlist-import', dict(block=kind, params=p, what=f'cannot import the live netlist: {type(e).__name__}: {e}'))
+    try:
+        outs = run_driver('Drv/C09.lean', [f"net {k} | {','.join(str(x) for x in net_params(k, p))} | " for k, p in cfgs])
+    except ToolFailure as e:
+        res.broken.append(('correspondence', 'netlist-import', 'driver does not run: ' + str(e)[:300]))
+        return
+    for (kind, p), lv, ln in zip(cfgs, live, outs):
+        res.hist('netlist_import', kind)
+        norm = lambda t: ' '.join(t.split())
+        if norm(lv) != norm(ln):
+            res.disagree('netlist-import', dict(block=kind, params=p, live=lv, lean_builder=ln))
+
+
 # ------------------------------------------------------------------------------------------------ main
 def main(res, tier, rng, replay):
     ok, metas, errors, changed = regenerate()
     for e in errors:
         res.broken.append(('translator', 'py2lean', e))
-    res.proof_stage('Py4hwV.Props.C09', OBLIGATIONS)
+    res.proof_stage('Py4hwV.Props.C09Net', OBLIGATIONS)
     quick = tier == 'quick'
     if ok:
         try:
@@ -738,6 +852,7 @@ def main(res, tier, rng, replay):
                                            'Constant', 'AddCarryIn', 'BitsLSBF'])
         except ToolFailure as e:
             res.broken.append(('correspondence', 'T1', f'generated definitions do not run: {e}'))
+    netlist_import(res, tier)
     cases = Cases(res)
     # corpus first
     cdir = os.path.join(VERIF, 'corpus', 'C09')
